@@ -198,3 +198,64 @@ func fmtEvents(evs []mon.Event) string {
 }
 
 var _ = oracle.ParseLogfmt
+
+// explain attributes the violations of a record to its parts (a cheap delta-debugging
+// step that keeps known-finding signatures narrow): every attribute is logged alone;
+// those that fail alone are culprits, named by their value class. The record is then
+// logged again without the culprits; whatever still fails is the residual, reported
+// under its own clause. If nothing fails alone the original violations are the residual.
+func explain(cs recCase, run func(recCase) ([]byte, []tv)) (culprits []string, residual []tv) {
+	seen := map[string]bool{}
+	var keep []gen.KV
+	for _, kv := range cs.kvs {
+		alone := recCase{msg: "m", lvl: slog.InfoLevel, caller: cs.caller, kvs: []gen.KV{kv}}
+		if _, v := run(alone); len(v) > 0 {
+			cl := culpritClass(kv.Val)
+			if !seen[cl] {
+				seen[cl] = true
+				culprits = append(culprits, cl)
+			}
+			continue
+		}
+		keep = append(keep, kv)
+	}
+	rest := cs
+	rest.kvs = keep
+	_, residual = run(rest)
+	return
+}
+
+// culpritClass names an attribute value that fails on its own.
+func culpritClass(v gen.V) string {
+	if v.Kind == "strs" {
+		for _, e := range v.Elems {
+			if strings.Contains(e.Text, " ") {
+				return "strs-element-with-space"
+			}
+		}
+	}
+	if v.Kind == "group" {
+		// name the member classes inside
+		var walk func(v gen.V) string
+		walk = func(v gen.V) string {
+			for _, it := range v.Items {
+				if it.Val.Kind == "group" {
+					if s := walk(it.Val); s != "" {
+						return s
+					}
+				} else if it.Val.Kind == "strs" {
+					for _, e := range it.Val.Elems {
+						if strings.Contains(e.Text, " ") {
+							return "strs-element-with-space"
+						}
+					}
+				}
+			}
+			return ""
+		}
+		if s := walk(v); s != "" {
+			return s
+		}
+	}
+	return valueClass(v)
+}
